@@ -73,7 +73,10 @@ def _l1_tasks(tier):
                         dict(slmode=slmode, nspin=nspin, mode=mode, version=version, layout=layout), mods="numint", max_paths=128))
     extra = [dict(slmode="npa", nspin=2, mode="SEP", version=1, layout="sl+nldf", nevals=2, two_kernels=True, add=True),
              dict(slmode="npa", nspin=1, mode="SEP", version=2, layout="sl+nldf", slxc_type="GGA", add="GGA_C_PBE"),
-             dict(slmode="npa", nspin=2, mode="NPOL", version=1, layout="sl", slxc_type="MGGA", add=True)]
+             dict(slmode="npa", nspin=2, mode="NPOL", version=1, layout="sl", slxc_type="MGGA", add=True),
+             # exactly two grid points with nspin = 1 (a block size at which `dfdX1.shape[0] == 2` used to be mistaken for the POL layout)
+             dict(slmode="npa", nspin=1, mode="NPOL", version=1, layout="sl", ngrids=2),
+             dict(slmode="np", nspin=1, mode="SEP", version=2, layout="sl", ngrids=2)]
     if tier == "thorough":
         extra += [dict(slmode="nst", nspin=2, mode="SEP", version=2, layout="sl+nldf", slxc_type="LDA", mul="MGGA_X_R2SCAN", add="GGA_C_PBE", two_kernels=True),
                   dict(slmode="npa", nspin=1, mode="SEP", version=1, layout="sl+nldf", ngrids=2)]
